@@ -492,6 +492,29 @@ def check(assertions, rlimit=None, want_model=True, use_cvc5=True):
             STATS["cvc5"] += 1
             r2.time = time.time() - t0
             return r2
+    if s_int is not None:
+        # the same query in fresh solver processes (the in-process search depends on what the worker solved before)
+        for cli in (["/usr/local/bin/z3-new", "-smt2", "rlimit=40000000"], ["/usr/bin/z3", "-smt2", "rlimit=40000000"]):
+            r2 = _cvc5(s_int, enc_int, cmd=cli, name=os.path.basename(cli[0]) + "-cli")
+            if r2 is not None:
+                STATS["z3"] += 1
+                STATS["retried"] = STATS.get("retried", 0) + 1
+                r2.time = time.time() - t0
+                return r2
+    # last round: the search of z3 depends on what the process solved before (work is distributed dynamically over the workers),
+    # so a query close to its budget may flip between runs -- give it 16 times the resources before calling it undecided
+    for which, budget in order:
+        if which == "int":
+            r, s_int, enc_int = _check_int(assertions, budget * 16, want_model)
+        else:
+            r = _check_bv(assertions, budget * 16, want_model)
+        if r.status in ("sat", "unsat"):
+            r.time = time.time() - t0
+            STATS["time"] += r.time
+            STATS["z3"] += 1
+            STATS["retried"] = STATS.get("retried", 0) + 1
+            return r
+        reasons.append("%s(x16): %s" % (which, r.reason))
     STATS["unknown"] += 1
     dt = time.time() - t0
     STATS["time"] += dt
@@ -501,12 +524,13 @@ def check(assertions, rlimit=None, want_model=True, use_cvc5=True):
 CVC5 = "/usr/bin/cvc5"
 
 
-def _cvc5(solver, enc):
-    if not os.path.exists(CVC5):
+def _cvc5(solver, enc, cmd=None, name="cvc5"):
+    if not os.path.exists(cmd[0] if cmd else CVC5):
         return None
     txt = solver.to_smt2()
-    txt = txt.replace("bv2int", "bv2nat")
-    txt = "(set-logic ALL)\n(set-option :produce-models true)\n" + txt
+    if cmd is None:
+        txt = txt.replace("bv2int", "bv2nat")
+        txt = "(set-logic ALL)\n(set-option :produce-models true)\n" + txt
     names = list(enc.vars)
     if names:
         txt += "\n(get-value (%s))\n" % " ".join("|%s|" % n if not n.replace("_", "a").isalnum() else n for n in names)
@@ -514,7 +538,7 @@ def _cvc5(solver, enc):
         f.write(txt)
         path = f.name
     try:
-        p = subprocess.run([CVC5, "--rlimit=%d" % 4000000, path], capture_output=True, text=True, timeout=1200)      # the resource limit is the (deterministic) budget; the wall clock is a safety net sized for a loaded machine
+        p = subprocess.run((cmd or [CVC5, "--rlimit=%d" % 4000000]) + [path], capture_output=True, text=True, timeout=1200)      # the resource limit is the (deterministic) budget; the wall clock is a safety net sized for a loaded machine
         out = p.stdout.strip().splitlines()
     except Exception:
         return None
@@ -523,7 +547,7 @@ def _cvc5(solver, enc):
     if not out:
         return None
     if out[0] == "unsat":
-        return Result("unsat", backend="cvc5")
+        return Result("unsat", backend=name)
     if out[0] == "sat":
         model = {}
         import re
@@ -536,7 +560,7 @@ def _cvc5(solver, enc):
                 model[name] = int(m.group(4))
             else:
                 model[name] = m.group(2) == "true"
-        return Result("sat", model, "cvc5")
+        return Result("sat", model, name)
     return None
 
 
